@@ -105,7 +105,7 @@ class Authorization:
         if scheme == "basic":
             try:
                 username, _, password = base64.b64decode(rest).decode().partition(":")
-            except (binascii.Error, UnicodeError):
+            except (binascii.Error, UnicodeError, ValueError):
                 return None
 
             return cls(scheme, {"username": username, "password": password})
